@@ -51,6 +51,12 @@ impl CopyHandle {
             return Err(XcpError::InvalidDestination("Source and destination are the same file.").into());
         }
 
+        // A file never replaces a directory; in particular a backup
+        // must not move a whole directory out of the way.
+        if is_dir(to)? {
+            return Err(XcpError::InvalidDestination("Cannot overwrite a directory with a file.").into());
+        }
+
         if needs_backup(to, config)? {
             let backup = get_backup_path(to)?;
             info!("Backup: Rename {:?} to {:?}", to, backup);
